@@ -12,7 +12,7 @@ use tree_sitter::{Node, Parser, Point, Query, QueryCursor, Tree};
 pub fn meta(tier: &str) -> CheckMeta {
     CheckMeta {
         id: "C11", level: "model_checking",
-        rule: "E-box over (query, tree, cursor configuration). Queries: a list of single patterns (all shapes of the C05 family that matter for cursor bookkeeping: nested, alternation, quantified, wildcard, fielded, non-rooted sibling groups), every ordered pair of them as a two-pattern query, and predicate queries (#eq? capture/string, #not-eq?, #any-eq?, #any-not-eq?, #match?, #not-match?, #any-of?, #not-any-of?) over single and quantified captures. Trees: seeds + strings of <=2 lexemes of stmts and jsonish, valid and erroneous. Per pair: (1) the capture stream's (pattern, capture, node) triples equal, as a multiset, those of the match stream and come in non-decreasing start-byte order; (2) for EVERY byte range [a,b) with a<b (documents <= 24 bytes; a grid beyond) and the corresponding point ranges: rooted patterns with a captured root return exactly the unrestricted matches whose root intersects the range, other patterns are sandwiched; containing ranges return exactly the matches all of whose captured nodes lie inside; (3) re-exec on the same cursor, a fresh cursor and a cursor previously used with another query and range give identical streams; max_start_depth in {0,1,2} equals filtering by root depth; (4) match limits 1,2,3,4,8: any difference from the unlimited streams implies did_exceed_match_limit; (5) remove_match at every capture position k: the rest of the stream is the original rest minus that match's captures; (6) the Rust iterators return exactly the raw matches for which our own evaluation of the text predicates holds, for contiguous and chunked text providers. Non-trivial = configurations whose unrestricted match list is non-empty.",
+        rule: "E-box over (query, tree, cursor configuration). Queries: a list of single patterns (all shapes of the C05 family that matter for cursor bookkeeping: nested, alternation, quantified, wildcard, fielded, non-rooted sibling groups), every ordered pair of them as a two-pattern query, and predicate queries (#eq? capture/string, #not-eq?, #any-eq?, #any-not-eq?, #match?, #not-match?, #any-of?, #not-any-of?) over single and quantified captures. Trees: seeds + strings of <=2 lexemes of stmts and jsonish, valid and erroneous. Per pair: (1) the capture stream's (pattern, capture, node) triples equal, as a multiset, those of the match stream and come in non-decreasing start-byte order; (2) for EVERY byte range [a,b) with a<b (documents <= 24 bytes; a grid beyond) and the corresponding point ranges: rooted patterns with a captured root return exactly the unrestricted matches whose root intersects the range, other patterns are sandwiched; containing ranges return exactly the matches all of whose captured nodes lie inside; (3) re-exec on the same cursor, a fresh cursor and a cursor previously used with another query and range give identical streams; max_start_depth in {0,1,2} equals filtering by root depth; (4) match limits 1,2,3,4,8: any difference from the unlimited streams implies did_exceed_match_limit; (5) remove_match at every capture position k: the rest of the stream is the original rest minus that match's captures; (6) the Rust iterators return exactly the raw matches for which our own evaluation of the text predicates holds, for contiguous and chunked text providers. Queued matches: every nesting structure of <=N arrays x first elements {1,2} and flat arrays of <=M numbers under multi-capture queries with text predicates; the capture stream is in document order and equals the predicate-filtered matches. Non-trivial = configurations whose unrestricted match list is non-empty.",
         assumptions: vec!["document order of captures is asserted on start bytes only".into()],
         exhaustive: true,
         bounds: json!({"tier": tier, "all_ranges_up_to_bytes": 24, "match_limits": [1, 2, 3, 4, 8]}),
@@ -424,8 +424,149 @@ fn check_nested(ctx: &Ctx, res: &mut ShardResult, idx: &mut usize) {
     }
 }
 
+// ---- the heap of finished matches, driven directly (hook H4) ----------------------------------------------------------
+// The capture iterator keeps finished matches in a binary min-heap keyed by (start byte of the next unconsumed capture,
+// pattern, insertion order). Hook H4 exposes the operations next_capture and remove_match perform on it, on fabricated
+// captures. Every sequence below runs on the real functions and is compared step by step with a sorted list.
+extern "C" {
+    fn ts_verif_fsheap_new() -> *mut tree_sitter::ffi::TSQueryCursor;
+    fn ts_verif_fsheap_delete(c: *mut tree_sitter::ffi::TSQueryCursor);
+    fn ts_verif_fsheap_push(c: *mut tree_sitter::ffi::TSQueryCursor, id: u32, pattern: u16, start_bytes: *const u32, count: u32);
+    fn ts_verif_fsheap_take(c: *mut tree_sitter::ffi::TSQueryCursor, id: *mut u32, capture_index: *mut u32) -> bool;
+    fn ts_verif_fsheap_first_disorder(c: *const tree_sitter::ffi::TSQueryCursor) -> u32;
+    fn ts_verif_fsheap_ids(c: *const tree_sitter::ffi::TSQueryCursor, ids: *mut u32, cap: u32) -> u32;
+}
+
+#[derive(Clone, Copy, Debug, PartialEq)]
+enum HeapOp { Take, Remove(u32), Late(u32) }
+
+struct RefState { id: u32, pattern: u16, order: u32, caps: Vec<u32>, consumed: usize }
+
+/// one execution: `init` states pushed, then `ops`, then takes until empty; Err = (fingerprint, message)
+fn run_heap(init: &[(u16, Vec<u32>)], ops: &[HeapOp]) -> Result<u64, (String, String)> {
+    unsafe {
+        let c = ts_verif_fsheap_new();
+        let mut model: Vec<RefState> = vec![];
+        let mut next_order = 0u32;
+        let mut steps = 0u64;
+        let mut result = Ok(0);
+        let push = |model: &mut Vec<RefState>, next_order: &mut u32, id: u32, pattern: u16, caps: &[u32]| {
+            ts_verif_fsheap_push(c, id, pattern, caps.as_ptr(), caps.len() as u32);
+            model.push(RefState { id, pattern, order: *next_order, caps: caps.to_vec(), consumed: 0 });
+            *next_order += 1;
+        };
+        for (i, (pat, caps)) in init.iter().enumerate() { push(&mut model, &mut next_order, i as u32, *pat, caps); }
+        let mut check_take = |model: &mut Vec<RefState>| -> Result<bool, (String, String)> {
+            let (mut id, mut ci) = (0u32, 0u32);
+            let got = ts_verif_fsheap_take(c, &mut id, &mut ci);
+            let dis = ts_verif_fsheap_first_disorder(c);
+            if dis != 0 { return Err(("finished-heap-invariant".into(), format!("after a take element {} precedes its parent", dis))); }
+            let want = model.iter().enumerate().filter(|(_, s)| s.consumed < s.caps.len()).min_by_key(|(_, s)| (s.caps[s.consumed], s.pattern, s.order)).map(|(k, _)| k);
+            match (got, want) {
+                (false, None) => Ok(false),
+                (true, Some(k)) => {
+                    if model[k].id != id || model[k].consumed as u32 != ci { return Err(("finished-heap-order".into(), format!("take returned capture {} of state {}, the earliest is capture {} of state {} (start byte {})", ci, id, model[k].consumed, model[k].id, model[k].caps[model[k].consumed]))); }
+                    model[k].consumed += 1;
+                    Ok(true)
+                }
+                (g, w) => Err(("finished-heap-order".into(), format!("take returned {} but the model has {:?}", g, w.map(|k| model[k].id)))),
+            }
+        };
+        let mut late_id = 1000u32;
+        'run: {
+            for op in ops {
+                steps += 1;
+                match *op {
+                    HeapOp::Take => { if let Err(e) = check_take(&mut model) { result = Err(e); break 'run; } }
+                    HeapOp::Remove(id) => {
+                        if !model.iter().any(|s| s.id == id) { continue; }
+                        tree_sitter::ffi::ts_query_cursor_remove_match(c, id);
+                        model.retain(|s| s.id != id);
+                        let dis = ts_verif_fsheap_first_disorder(c);
+                        if dis != 0 { result = Err(("finished-heap-invariant".into(), format!("after removing state {} element {} precedes its parent", id, dis))); break 'run; }
+                        let mut ids = [0u32; 64];
+                        let n = ts_verif_fsheap_ids(c, ids.as_mut_ptr(), 64) as usize;
+                        if ids[..n.min(64)].contains(&id) { result = Err(("finished-heap-remove".into(), format!("state {} still queued after remove_match", id))); break 'run; }
+                    }
+                    HeapOp::Late(key) => { push(&mut model, &mut next_order, late_id, 0, &[key, key + 500]); late_id += 1; }
+                }
+            }
+            loop {
+                steps += 1;
+                match check_take(&mut model) { Ok(true) => {}, Ok(false) => break, Err(e) => { result = Err(e); break 'run; } }
+                if steps > 10_000 { result = Err(("finished-heap-does-not-drain".into(), "more than 10000 takes".into())); break 'run; }
+            }
+        }
+        ts_verif_fsheap_delete(c);
+        result.map(|_: u64| steps)
+    }
+}
+
+fn permutations(n: usize) -> Vec<Vec<usize>> {
+    fn rec(cur: &mut Vec<usize>, used: &mut Vec<bool>, out: &mut Vec<Vec<usize>>) {
+        if cur.len() == used.len() { out.push(cur.clone()); return; }
+        for i in 0..used.len() { if !used[i] { used[i] = true; cur.push(i); rec(cur, used, out); cur.pop(); used[i] = false; } }
+    }
+    let mut out = vec![];
+    rec(&mut vec![], &mut vec![false; n], &mut out);
+    out
+}
+
+fn heap_init(perm: &[usize], variant: usize) -> Vec<(u16, Vec<u32>)> {
+    // variants: distinct first keys / ties (pairs of equal keys, told apart by pattern and insertion order) x
+    // every state has two captures / one capture / alternating
+    let ties = variant % 2 == 1;
+    let shape = variant / 2;
+    perm.iter().enumerate().map(|(i, &p)| {
+        let k = if ties { 10 * (p as u32 / 2 + 1) } else { 10 * (p as u32 + 1) };
+        let two = match shape { 0 => true, 1 => false, _ => i % 2 == 0 };
+        let pattern = if ties { (p % 2) as u16 } else { 0 };
+        (pattern, if two { vec![k, 1000 + 7 * ((p as u32 * 3) % 5)] } else { vec![k] })
+    }).collect()
+}
+
+fn check_heap(ctx: &Ctx, res: &mut ShardResult, idx: &mut usize) {
+    let (max_n, max_ops) = if ctx.mini() { (4, 2) } else if ctx.quick() { (5, 4) } else { (7, 4) };
+    for n in 1..=max_n {
+        for perm in permutations(n) {
+            *idx += 1;
+            if !ctx.mine(*idx) { continue; }
+            for variant in 0..6usize {
+                let init = heap_init(&perm, variant);
+                let mut alphabet: Vec<HeapOp> = vec![HeapOp::Take];
+                for id in 0..n as u32 { alphabet.push(HeapOp::Remove(id)); }
+                alphabet.push(HeapOp::Late(1));
+                alphabet.push(HeapOp::Late(10 * (n as u32 / 2) + 5));
+                res.states += 1;
+                for len in 0..=max_ops {
+                    let mut stop = false;
+                    crate::util::for_each_seq(alphabet.len(), len, |ix| {
+                        if stop { return; }
+                        let ops: Vec<HeapOp> = ix.iter().map(|&i| alphabet[i]).collect();
+                        // at most two late pushes per sequence
+                        if ops.iter().filter(|o| matches!(o, HeapOp::Late(_))).count() > 2 { return; }
+                        res.transitions += 1;
+                        if ops.iter().any(|o| !matches!(o, HeapOp::Take)) { res.nontrivial += 1; }
+                        match run_heap(&init, &ops) {
+                            Ok(steps) => res.outcome(steps),
+                            Err((fp, msg)) => {
+                                res.violation(&fp, format!("states {:?}, operations {:?}: {}", init, ops, msg), json!({"part": "heap", "perm": perm, "variant": variant, "ops": format!("{:?}", ops)}));
+                                if res.too_many() { stop = true; }
+                            }
+                        }
+                    });
+                    if stop { return; }
+                }
+            }
+            if ctx.out_of_time() { res.caps.push("wall-clock budget reached (finished-state heap)".into()); return; }
+        }
+    }
+}
+
 pub fn worker(ctx: &Ctx, res: &mut ShardResult) {
     let mut idx = 0usize;
+    check_heap(ctx, res, &mut idx);
+    if res.too_many() { return; }
     check_nested(ctx, res, &mut idx);
     if res.too_many() { return; }
     for (lname, pats) in [("stmts", &PATTERNS[..]), ("jsonish", &JSON_PATTERNS[..])] {
@@ -463,6 +604,18 @@ pub fn worker(ctx: &Ctx, res: &mut ShardResult) {
 /// Re-run every cursor configuration of one recorded (language, query, text) outside the explorer.
 pub fn replay(case: &Value) -> Vec<String> {
     let case = if case.get("kind").and_then(|k| k.as_str()) == Some("crash") { &case["case"] } else { case };
+    if case["part"].as_str() == Some("heap") {
+        let perm: Vec<usize> = case["perm"].as_array().map(|a| a.iter().filter_map(|v| v.as_u64().map(|x| x as usize)).collect()).unwrap_or_default();
+        let variant = case["variant"].as_u64().unwrap_or(0) as usize;
+        let mut ops = vec![];
+        for part in case["ops"].as_str().unwrap_or("").trim_matches(|c| c == '[' || c == ']').split(", ") {
+            let arg: u32 = part.chars().filter(|c| c.is_ascii_digit()).collect::<String>().parse().unwrap_or(0);
+            if part.starts_with("Take") { ops.push(HeapOp::Take); } else if part.starts_with("Remove") { ops.push(HeapOp::Remove(arg)); } else if part.starts_with("Late") { ops.push(HeapOp::Late(arg)); }
+        }
+        let init = heap_init(&perm, variant);
+        println!("states pushed (pattern, capture start bytes): {:?}\noperations: {:?}, then takes until empty", init, ops);
+        return match run_heap(&init, &ops) { Ok(steps) => { println!("{} steps, every take returned the earliest capture", steps); vec![] } Err((fp, m)) => vec![format!("{}: {}", fp, m)] };
+    }
     let (Some(lname), Some(qsrc)) = (case["lang"].as_str(), case["query"].as_str()) else { return vec![format!("not a C11 case: {}", case)] };
     let Some(z) = crate::zoo::by_name(lname) else { return vec![format!("unknown language {}", lname)] };
     let info = build_info(&z);
@@ -476,6 +629,23 @@ pub fn replay(case: &Value) -> Vec<String> {
     let mut res = ShardResult::new();
     res.max_violations = 20;
     let ctx = Ctx { id: "C11".into(), tier: "thorough".into(), seed: 0, shard: 0, nshards: 1, deadline: std::time::Instant::now() + std::time::Duration::from_secs(600) };
+    if case["x"]["part"].as_str() == Some("nested") {
+        let first = qsrc.lines().next().unwrap();
+        let (raw_first, pred) = parse_pred(first);
+        let raw_src = qsrc.replacen(first, &raw_first, 1);
+        let (Ok(q), Ok(raw)) = (Query::new(&info.language, qsrc), Query::new(&info.language, &raw_src)) else { return vec!["query rejected".into()] };
+        let mut cur = QueryCursor::new();
+        let raw_m = env.matches(&mut cur, &raw);
+        let want: Vec<MatchRec> = raw_m.iter().filter(|m| m.pattern != 0 || eval_pred(&pred, &raw, m, &env)).cloned().collect();
+        let got_c = env.captures(&mut cur, &q);
+        let starts: Vec<usize> = got_c.iter().map(|c| xt.nodes[c.node].start).collect();
+        println!("captures (pattern, capture, start byte): {:?}", got_c.iter().map(|c| (c.pattern, c.cap, xt.nodes[c.node].start)).collect::<Vec<_>>());
+        println!("matches that satisfy the predicate: {:?}", strip_ids(&want));
+        let mut out = vec![];
+        if starts.windows(2).any(|w| w[0] > w[1]) { out.push(format!("captures-out-of-document-order: start bytes {:?}", starts)); }
+        if triples_of_caps(&got_c) != triples_of_matches(&want) { out.push("predicate-captures-differ-from-matches".to_string()); }
+        return out;
+    }
     if qsrc == "predicates" || qsrc.contains("(#") {
         check_predicates(lname, &info.language, &env, &mut res);
         if qsrc != "predicates" { res.violations.retain(|v| v.what.contains(qsrc)); }
